@@ -143,6 +143,12 @@ def parse_ann(node, module: ModuleInfo, cls: Optional[ClassInfo] = None, depth=0
             return parse_ann(r[2], r[1], None, depth + 1)
         if name in _SIMPLE:
             return _SIMPLE[name]
+        if r is None and isinstance(node, ast.Name):
+            try:  # a class of the repository that this module does not import (sidecar type declarations)
+                c = Repo.get().class_by_name(name)
+                return ENUM(c) if c.is_enum else OBJ(c)
+            except KeyError:
+                pass
         return ANY
     if isinstance(node, ast.Subscript):
         head = node.value
